@@ -4,7 +4,7 @@ from __future__ import annotations
 
 import z3
 
-from contracts.unbounded import exp, ext_exp, inb, ints, records
+from contracts.unbounded import cells_done, exp, ext_exp, inb, ints, records
 from pyvc import wp
 from pyvc.contract import Contract
 
@@ -28,10 +28,13 @@ def no_irf_spec():
     def ensures(old, new, res):
         return [("cell_t_r_of_a_zeroed_matrix_becomes_exp_minus_rate_r_times_t_and_nothing_else_changes", cell(old, new, z3.BoolVal(True)))]
 
-    invariants = {
-        0: lambda old, now, i: [cell(old, now, r < i)],
-        1: lambda old, now, i: [cell(old, now, z3.Or(r < now.loopvar(0), z3.And(r == now.loopvar(0), t < i))), inb(now.loopvar(0), old.shape("rates"))],
-    }
+    # written for "the loop over the rates" / "the loop over the times", whatever their nesting order
+    coords = {("rates", 0): r, ("times", 0): t}
+
+    def inv(k):
+        return lambda old, now, i: [cell(old, now, cells_done(now, (k, i), coords))] + [inb(now.loopvar(j), old.shape(*now.loop_over(j))) for j in now.active_loops() if j < k]
+
+    invariants = {0: inv(0), 1: inv(1)}
     return wp.FnSpec(fn, [("matrix", "arr2"), ("rates", "arr1"), ("times", "arr1")], requires, ("matrix",), ensures, invariants, {"np.exp": ext_exp})
 
 
